@@ -217,7 +217,6 @@ def run_link(g, model, link, f: Findings, info: dict, do_writes=True, light=Fals
     bearer = link_name(link)
     autoreg = model.autoreg()
     c_conn, s_conn = g.connect(0)
-    resp_log = []
     try:
         if link[0] == 'att':
             client = c_conn.gatt_client
@@ -390,7 +389,6 @@ def run_link(g, model, link, f: Findings, info: dict, do_writes=True, light=Fals
             g.disconnect(c_conn)
         except Exception:  # noqa: BLE001
             pass
-    return resp_log
 
 
 def run_bounded(g, coro, max_steps):
@@ -433,6 +431,9 @@ def role_of(row):
 
 async def read_check(g, client, row, m, bearer, f, info, link, via=None):
     exp = row['value'] if row['kind'] not in ('chr_value', 'descriptor') else g.server_value(row)
+    if exp is None:
+        info['reads_skipped_dynamic'] = info.get('reads_skipped_dynamic', 0) + 1
+        return
     info['reads'] = info.get('reads', 0) + 1
     try:
         got = await (via.read_value() if via is not None else client.read_value(row['handle']))
@@ -475,15 +476,17 @@ async def write_check(g, client, row, data, with_response, m, bearer, f, info, l
     row['value'] = now
 
 
-def discovery_case(spec, links, seed=0, do_writes=True, light_after_first=False):
+def discovery_case(spec, links, seed=0, do_writes=True, light_after_first=False, defaults=False):
     """-> (Findings, info) for one database over the given links (one connection each)."""
     from ..harness.c12_world import GattWorld
 
-    f = Findings({'sub': 'discovery', 'spec': spec, 'links': [list(l) for l in links]})
+    f = Findings({'sub': 'discovery', 'spec': spec, 'links': [list(l) for l in links], 'defaults': defaults})
     info: dict = {}
-    with GattWorld(2, 1, seed=seed, eatt=any(l[0] == 'eatt' for l in links)) as g:
+    if defaults:
+        do_writes = False
+    with GattWorld(2, 1, seed=seed, eatt=any(l[0] == 'eatt' for l in links), defaults=defaults) as g:
         model = g.set_database(spec)
-        probs = g.layout_problems()
+        probs = [] if defaults else g.layout_problems()
         if probs:
             f.add('db_layout', {'problem': 'sequence', 'autoreg_include': model.autoreg()}, 'server attribute list differs from the model: ' + probs[0])
             return f, info
@@ -508,15 +511,16 @@ def w_discovery(arg):
     items, seed = arg
     st = core.Stats('discovery')
     aborted = 0
-    for idx, axes, links in items:
+    for idx, axes, links, *rest in items:
+        defaults = bool(rest and rest[0])
         if aborted >= 3:
             st.cap('discovery slice abandoned after 3 databases whose discovery did not terminate')
             break
         spec = spec_of_axes(axes, idx)
         n_off = sum(1 for k, v in axes.items() if v != DEFAULT_AXES[k])
-        f, info = discovery_case(spec, links, seed, do_writes=n_off <= 1, light_after_first=n_off > 1)
+        f, info = discovery_case(spec, links, seed, do_writes=n_off <= 1, light_after_first=n_off > 1, defaults=defaults)
         for link in links:
-            st.case(('disc', idx, tuple(link)))
+            st.case(('disc', idx, tuple(link), defaults))
         f.into(st)
         for k in ('procedures', 'compared', 'reads', 'writes', 'links', 'mtu_agree', 'secondary_walked'):
             st.count(k, info.get(k, 0))
@@ -713,10 +717,8 @@ def check_notify(f, info, api, target, force, vsel, st_map, exp, res, hx):
             f.add('notify', sig('kind', bi), f'{desc()}: bearer {bi} was sent opcode 0x{wrong_kind[0][0]:02X}, the call asks for 0x{want_op:02X}', **case)
             continue
         if e is None:
-            # forced broadcast to a bearer that is not subscribed: only kind and size are fixed
-            for p in got:
-                if len(p[2]) > res_mtu(exp, bi, p):
-                    pass
+            # forced broadcast to a bearer that is not subscribed: only the kind is fixed by the statement
+            # (the size bound of every server PDU is C10's clause)
             continue
         if len(got) < len(e):
             wire_ok = False
@@ -774,10 +776,6 @@ def check_notify(f, info, api, target, force, vsel, st_map, exp, res, hx):
             else:
                 pr = 'callback_value'
             f.add('notify', sig(pr, bi), f'{desc()}: client of bearer {bi} ran callbacks {[(c[0], c[1], len(c[2])) for c in calls]}, expected {[(c[0], c[1], len(c[2])) for c in exp_calls]}', **case)
-
-
-def res_mtu(exp, bi, p):  # placeholder kept for symmetry; forced broadcasts are size-checked in C10
-    return 1 << 30
 
 
 def w_notify(arg):
@@ -920,6 +918,12 @@ def run(ctx: core.Context) -> int:
             n_off = sum(1 for k, v in axes.items() if v != DEFAULT_AXES[k])
             links = full if n_off <= 1 else link_sets[idx % len(link_sets)]
             items.append((idx, axes, links))
+        # the same databases behind bumble's default GAP + GATT services (reference adopted from the server's objects)
+        n_plain = len(items)
+        for idx, axes in enumerate(shapes):
+            n_off = sum(1 for k, v in axes.items() if v != DEFAULT_AXES[k])
+            if n_off <= 1 and axes['svc'] != 'same_uuid':
+                items.append((idx, axes, full[:3] if quick else full[::5], True))
         for p in core.split(rotate(items, seed), ctx.jobs * 8):
             tasks.append(('discovery', (p, seed)))
         ctx.log(f'discovery: {len(shapes)} shapes, {sum(len(i[2]) for i in items)} (shape, link) cases')
@@ -996,12 +1000,17 @@ def run(ctx: core.Context) -> int:
         ctx,
         LEVEL,
         rule=(
-            'discovery: every database shape with at most 2 of the 5 grammar axes (service list incl. include edges and widths; characteristic width pattern; '
-            'property rotation; descriptor pattern; dynamic values) off the minimal database, each over fresh connections with the listed MTU preference pairs and EATT; '
-            'long_read: every value length of the boundary set of the negotiated MTU for every MTU link of the tier; notify: every subscription state vector in '
-            '{none,N,I}^6 plus <=2 cells in {unsubscribed-after, switched, both bits}, each x 16 API calls x values; termination: every adversarial script of length <=3 '
-            'over 14 response kinds per procedure (scripts the client never consumes fully are not extended). A case is non-trivial when it is a distinct '
-            '(shape, link) / (link, length) / (state vector, MTUs) / (procedure, script).'
+            'discovery: every database shape with at most 2 of the 5 grammar axes off the minimal database (axes: service list = 1-3 services x UUID width 16/32/128 '
+            'x primary/secondary x include edges; characteristic UUID-width pattern of 0-3 characteristics; property rotation over 6 property sets; descriptor pattern '
+            'of 0-2 descriptors x width; static/dynamic values); each shape on a fresh world, one fresh connection per link; links = no MTU exchange, client/server MTU '
+            'preference pairs from {23,24,50,185,517}^2 (thorough: all 25; quick: 5), EATT with L2CAP MTU 64 / 2048; shapes with <=1 axis off get every link of the '
+            'tier, shapes with 2 axes off a fixed subset chosen by shape index (quick 2 of 6, thorough 5-6 of 28). long_read: every value length of '
+            '{0,1,MTU-4..MTU,k(MTU-1)-1..+1 (k=1,2,3),511,512} x {static, dynamic, descriptor} for every link (quick 28 links; thorough every MTU 23..517 as client and '
+            'as server preference plus 9 EATT MTUs). notify: every subscription vector in {none,N,I}^6 over 3 bearers x 2 characteristics, plus <=2 cells in '
+            '{unsubscribed-after-N/I, switched N->I / I->N, both bits}, each x 16 API calls (4 entry points x targets x force) x {stored value, 5 bytes}; plus MTU triples '
+            'x value lengths around every bearer MTU-3. termination: per discovery procedure every script of <=3 response kinds out of 14 (last repeated forever), '
+            'explored as a tree: a script is extended only when the client consumed all of it. A case is non-trivial when it is a distinct (shape, link) / '
+            '(link, length) / (state vector, MTU triple) / (procedure, script).'
         ),
         assumptions=[
             'the server device is created without the default GAP/GATT services so that the database is exactly the enumerated one',
@@ -1025,7 +1034,7 @@ def replay(v: core.Violation):
                 msgs.append(msg)
 
     if sub == 'discovery':
-        f, _ = discovery_case(c['spec'], [tuple(c['link'])] if 'link' in c else [tuple(l) for l in c['links']])
+        f, _ = discovery_case(c['spec'], [tuple(c['link'])] if 'link' in c else [tuple(l) for l in c['links']], defaults=bool(c.get('defaults')))
         collect(f)
     elif sub == 'long_read':
         f, _ = long_read_case([tuple(c['link'])] if 'link' in c else [tuple(l) for l in c['links']], only_length=c.get('length'))
